@@ -31,7 +31,7 @@ RULE = ("layer 1/2: every rooted tree of order <= 8 (200 trees, exhaustive) x {a
         "coarsest-resolution error is above the rounding floor; distinct by (tree, entry point) resp. full instance")
 ASSUMPTIONS = [
     "fixed-step order: the better of the two finest pairwise log2 error ratios over step halvings (or, when they are still rising and the finest is within 1 of p, their linear extrapolation to h->0) >= p - 0.5, using only resolutions with >= 8 steps and errors in [1e-11, 1e-2]*scale; fewer than 2 ratios => counted trivial, never failed",
-    "adaptive accuracy (at tol and tol/100; when the error at tol is >= the tolerance itself it must also drop >= 1.5x at tol/100): error at every requested time <= 200*max(1, r_scipy)*(rtol*|y|+atol) (the RMS error norm is diluted ~3.6x by the 35 constant parameter components of the template) where r_scipy is SciPy's own error ratio for the same method family on the same instance, instances with ||J||*T <= 6",
+    "adaptive accuracy (at tol and tol/100; when the error at tol is >= the tolerance itself it must also drop >= 1.5x at tol/100): error at every requested time <= 60*max(1, r_scipy)*(rtol*|y|+atol) (calibration: largest observed value of err/(tol*max(1,r_scipy)) over 3100 thorough cases was 16) (the RMS error norm is diluted ~3.6x by the 35 constant parameter components of the template) where r_scipy is SciPy's own error ratio for the same method family on the same instance, instances with ||J||*T <= 6",
     "reference solutions: SciPy DOP853 at rtol=atol=1e-13 on an independently written NumPy field",
 ]
 
@@ -104,6 +104,19 @@ def tmpl_np(t, x, par):
     return A @ x + Q @ mon + F * math.cos(w * t) + G * math.sin(w * t) * x
 
 
+# ---- second layer-3 template: a narrow forcing pulse (the step controller MUST reject steps that straddle its edges)
+def pulse_rhs(t, y):
+    out = np.zeros(5)
+    u = (t - y[2]) / y[3]
+    out[0] = -y[4] * y[0] + y[1] * np.exp(-u * u)
+    return out
+
+
+def pulse_np(t, x, a, t0, w, k):
+    u = (t - t0) / w
+    return np.array([-k * x[0] + a * math.exp(-u * u)])
+
+
 _sys = {}
 
 
@@ -113,6 +126,7 @@ def systems():
         _sys["forest"] = create_rhs_system(forest_rhs, NV, name="probe-forest")
         _sys["forest_t"] = create_rhs_system(forest_t_rhs, NV, name="probe-forest-t")
         _sys["tmpl"] = create_rhs_system(tmpl_rhs, DIM3, name="quad-template")
+        _sys["pulse"] = create_rhs_system(pulse_rhs, 5, name="pulse-template")
     return _sys
 
 
@@ -357,7 +371,7 @@ def eval_ode(case, ctx):
     rb = "ode:err/tol<1" if ratio < 1 else ("ode:err/tol<10" if ratio < 10 else ("ode:err/tol<30" if ratio < 30 else "ode:err/tol>=30"))
     ctx.case(nontrivial=nt, cls=["ode:adaptive%d" % p, "ode:" + case["kind"], "ode:grid-" + case["grid"], rb, rb + ":scipy>=10" if r_scipy >= 10 else rb + ":scipy<10"],
              sample={"case": case, "err/tol": ratio, "scipy err/tol": r_scipy, "err(tol)": emax1, "err(tol/100)": emax2} if nt and ctx.evaluations % 9 == 0 else None)
-    K = 200.0 * max(1.0, r_scipy)
+    K = 60.0 * max(1.0, r_scipy)
     ctx.extra.setdefault("adaptive_err_over_tol_max_per_shard", [0.0])
     ctx.extra["adaptive_err_over_tol_max_per_shard"][0] = max(ctx.extra["adaptive_err_over_tol_max_per_shard"][0], ratio / max(1.0, r_scipy))
     ratio2 = float(np.max(res[tol * 1e-2] / (tol * 1e-2 * np.abs(ref) + at0 * 1e-2)))
@@ -370,6 +384,52 @@ def eval_ode(case, ctx):
     elif ratio >= 1.0 and emax1 > 1e3 * floor and not emax2 <= max(emax1 / 1.5, 10 * floor):
         ctx.fail("error-does-not-shrink-with-tolerance:adaptive%d" % p, case,
                  "error %.3g at tol=%g but %.3g at tol=%g" % (emax1, tol, emax2, tol * 1e-2))
+
+
+@st.composite
+def pulse_case(draw):
+    return {"a": draw(st.floats(0.5, 2.0)), "t0": draw(st.floats(0.4, 1.2)), "w": draw(st.floats(0.01, 0.1)), "k": draw(st.floats(0.0, 1.0)),
+            # magnitudes whose squares underflow are outside the domain (mapped to exactly 0, not filtered)
+            "x0": (lambda v: 0.0 if abs(v) < 1e-100 else v)(draw(st.floats(-1.0, 1.0))),
+            "order": draw(st.sampled_from([5, 8])), "tol": draw(st.sampled_from([1e-7, 1e-9, 1e-10]))}
+
+
+def eval_pulse(case, ctx):
+    """Step rejection: with max_step = pulse width the pulse is always sampled; steps straddling its edges have error
+    estimates far above 1 and must be rejected, otherwise the output error exceeds the tolerance by orders of magnitude."""
+    from hiten.algorithms.integrators.rk import AdaptiveRK
+    from scipy.integrate import solve_ivp
+    a, t0, w, k = case["a"], case["t0"], case["w"], case["k"]
+    T = 1.6
+    tv = np.linspace(0.0, T, 33)
+    f = lambda t, x: pulse_np(t, x, a, t0, w, k)
+    ref = solve_ivp(f, (0.0, T), [case["x0"]], method="DOP853", rtol=1e-13, atol=1e-13, max_step=w / 4, t_eval=tv)
+    if not ref.success:
+        ctx.case(cls="pulse:reference-failed"); return
+    tol = case["tol"]; p = case["order"]
+    fam = "RK45" if p == 5 else "DOP853"
+    ms = w / 2.0     # the pulse is resolved by construction: the embedded error estimate is then reliable
+    sc = solve_ivp(f, (0.0, T), [case["x0"]], method=fam, rtol=tol, atol=tol, max_step=ms, t_eval=tv)
+    bound = tol * np.abs(ref.y[0]) + tol
+    r_scipy = float(np.max(np.abs(sc.y[0] - ref.y[0]) / bound)) if sc.success else 1.0
+    y0 = np.array([case["x0"], a, t0, w, k], float)
+    sol = AdaptiveRK(order=p, rtol=tol, atol=tol, max_step=ms).integrate(systems()["pulse"], y0, tv)
+    err = np.abs(np.asarray(sol.states)[:, 0] - ref.y[0])
+    # judged only AFTER the pulse (t >= t0 + 5w): inside it the requested times fall into steps of the size of the
+    # pulse and the (uncontrolled, 4th/7th-order) dense output dominates -- SciPy's identical interpolant shows the same
+    # errors for the same steps; what this clause is after is the error committed by the accepted steps, which persists
+    after = tv >= min(t0 + 5 * w, tv[-1])
+    ratio = float(np.max((err / bound)[after]))
+    r_scipy = float(np.max((np.abs(sc.y[0] - ref.y[0]) / bound)[after])) if sc.success else 1.0
+    ctx.extra.setdefault("pulse_err_over_tol_max_per_shard", [0.0])
+    ctx.extra["pulse_err_over_tol_max_per_shard"][0] = max(ctx.extra["pulse_err_over_tol_max_per_shard"][0], ratio / max(1.0, r_scipy))
+    ctx.case(nontrivial=("pulse", repr(case)), cls=["pulse:adaptive%d" % p, "pulse:err/tol<10" if ratio < 10 else "pulse:err/tol>=10"],
+             sample={"case": case, "err/tol": ratio, "scipy err/tol": r_scipy} if ctx.evaluations % 15 == 0 else None)
+    # RMS over 5 components of which 4 are constant parameters dilutes the norm by sqrt(5)
+    K = 20.0 * max(1.0, r_scipy)     # calibration: largest observed ratio/max(1, r_scipy) on the unchanged tree was 0.72
+    if not ratio <= K:
+        ctx.fail("error-exceeds-tolerance-multiple:adaptive%d:pulse" % p, case,
+                 "narrow forcing pulse (width %.3g, max_step = width/2): max error/(rtol|y|+atol) = %.3g at tol=%g (SciPy %s with the same max_step: %.3g; allowed %.3g)" % (w, ratio, tol, fam, r_scipy, K))
 
 
 # ---- polynomial Hamiltonian systems through the *_ham fast path
@@ -453,6 +513,8 @@ def run(ctx):
     sh = ctx.shard - 1
     explore(ctx, "ode", ode_case(), eval_ode, (n3 // w) + (1 if sh < n3 % w else 0), shrink=False)
     explore(ctx, "ham", ham_case(), eval_ham, (nh // w) + (1 if sh < nh % w else 0), shrink=False)
+    npulse = ctx.scale(100, 2000)
+    explore(ctx, "pulse", pulse_case(), eval_pulse, (npulse // w) + (1 if sh < npulse % w else 0), shrink=False)
 
 
 def replay(ctx, payload):
@@ -460,5 +522,7 @@ def replay(ctx, payload):
         eval_ham(payload, ctx)
     elif "par" in payload:
         eval_ode(payload, ctx)
+    elif "t0" in payload and "w" in payload:
+        eval_pulse(payload, ctx)
     else:
         layer12(ctx, [0.5, 0.3])
